@@ -26,7 +26,7 @@ RULE = (
     "jobs) goes through the real create_gantt_chart_gif pipeline (file naming, directory "
     "listing, sorted loading) with a stub figure writing k into the frame file and "
     "imageio.imread/mimsave replaced by recorders: images must be loaded in order 1..n. "
-    "End-to-end: real GIF (and video, thorough) written and decoded with imageio for n <= 12. "
+    "Every state is also drawn through ONE get_partial_gantt_chart_plotter() object kept for the whole traversal (x axis and bar count per schedule). End-to-end: real GIF (and video, thorough) written and decoded with imageio for n <= 12. "
     "Case = one schedule / history / n; non-trivial = schedule with >= 2 operations on >= 2 "
     "jobs, or n >= 10."
 )
@@ -36,8 +36,8 @@ ASSUMPTIONS = [
     "axis-limit clause asserted only when the limit is positive (a zero-width matplotlib axis is widened by matplotlib itself)",
 ]
 BOUNDS = {
-    "quick": "charts: distinct schedules of K3[seed%6::6] and small probes, + requested limits; frame content: all histories of K3[seed%3::3], probes (solver-driven on probes); frame order: every n in 1..130 x 2 instance shapes; GIF end-to-end: n = 3 and n = 12",
-    "thorough": "charts: K3, K4[::16], probes; frame content: K3, K4[::8], probes; frame order: every n in 1..1100; GIF + video end-to-end n in {3, 12}",
+    "quick": "charts: distinct schedules of K3[seed%6::6] and small probes, + requested limits; frame content: all histories of K3[seed%3::3], probes (solver-driven on probes); frame order: every n in 1..130 and 998..1002 x 2 instance shapes; GIF end-to-end: n = 3 and n = 12",
+    "thorough": "charts: K3, K4[::16], probes; frame content: K3, K4[::8], probes; frame order: every n in 1..1100 and 9999..10001; GIF + video end-to-end n in {3, 12}",
 }
 
 
